@@ -218,6 +218,29 @@ def mapping_arguments(ctx):
                   "sequence of duples: its keys are unpacked character by character into bogus fields or raise ValueError, and "
                   "update() never stamps")
     data_delete_through_odict(ctx)
+    change_assigns_every_field(ctx)
+
+
+def change_assigns_every_field(ctx, rule="T2-assign"):
+    """Share.change (behind update, and so behind init / put / inc / set / copy) stores every field it is given: no test decides
+    whether a given value is written"""
+    from ..rules import path_condition, formula_unsat
+    ctx.rule(rule, "Share.change: setattr(self._data, k, v) for every given (k, v), unconditionally within its loop")
+    S = ctx.cls("storing", "Share")
+    f = S.own_method("change")
+    V = FuncView(ctx, f)
+    sets = [(n, c) for n, c in V.calls("setattr") if len(c.args) == 3 and src(V.sym(c.args[0], n)) == "self._data"]
+    ok = len(sets) >= 2
+    for n, c in sets:
+        pc = path_condition(V, n)
+        ok = ok and formula_unsat(("not", pc))
+    loops = [h for h in V.cfg.nodes if h.kind == "for" and isinstance(h.ast.target, ast.Tuple)]
+    for h in loops:
+        from ._framing import every_iteration_passes
+        ok = ok and every_iteration_passes(V, h, [n for n, c in sets])
+    ctx.check(ok and bool(loops), rule, f, "Share.change writes each given field with setattr(self._data, k, v), whatever it held before",
+              "a write that is skipped when the field already compares equal keeps the old object: 1 then `put 1.0` (or True) leaves "
+              "the int, so the value a script literal was converted to is not the value (and type) the share ends up holding")
 
 
 def data_delete_through_odict(ctx):
